@@ -5,8 +5,8 @@ package conngater
 // C10 part "rule-forms": the same rule handed to the gater in every in-memory form the API type admits
 // (net.IP of 4 or 16 bytes; *net.IPNet with 4/16-byte IP and mask, host bits set, IPv4-mapped prefix, /32, /128),
 // each x {no fault, stop before / after the write, write error} x {live, reopened}. Oracle as in "persist".
-// Inputs whose meaning the statement does not fix (a mask that is not a prefix length; unblocking a subnet under
-// a different spelling than it was blocked with) are executed and reported as outcome classes only.
+// Unblocking a subnet under a different spelling than it was blocked with must take effect (the spellings denote one
+// subnet), and a subnet whose mask is not a prefix length must either be refused or survive a restart.
 
 import (
 	"fmt"
@@ -114,8 +114,10 @@ func TestVerifC10Forms(t *testing.T) {
 		cls := fmt.Sprintf("cross-spelling-unblock: errs=%v/%v still-enforced live=%v reopened=%v", e1 != nil, e2 != nil, still, stillAfter)
 		r.Outcome(cls)
 		distinct[cls+forms[pr[0]].Name] = struct{}{}
-		if still || stillAfter {
-			r.Note("observation (not in the statement's terms, no violation raised): Block %s then Unblock %s returns success but the subnet stays enforced (live=%v, after reopen=%v): rules are keyed by IPNet.String()", forms[pr[0]].Name, forms[pr[1]].Name, still, stillAfter)
+		if e1 == nil && e2 == nil && (still || stillAfter) {
+			// "every unblock whose call returned success is not [enforced]": the two spellings denote one subnet
+			r.Violate("unblock-under-another-spelling-not-effective", fmt.Sprintf("Block %s, then Unblock %s: both calls return success but the subnet stays enforced (live=%v, after reopen=%v)", forms[pr[0]].Name, forms[pr[1]].Name, still, stillAfter),
+				map[string]any{"part": "rule-forms", "block": forms[pr[0]].Name, "unblock": forms[pr[1]].Name})
 		}
 	}
 	// (b) a mask that is not a prefix length
@@ -132,7 +134,10 @@ func TestVerifC10Forms(t *testing.T) {
 			r.Outcome(cls)
 			distinct[cls] = struct{}{}
 			if e1 == nil && err2 != nil {
-				r.Note("observation (input outside the statement's universe, no violation raised): BlockSubnet(%s) returns success and is enforced live, but the rule is persisted as %q which loadRules cannot parse: NewBasicConnectionGater on that datastore fails with %v", odd.String(), odd.String(), err2)
+				// "after reopening, every block whose call returned success is enforced": here NOTHING is, the gater cannot
+				// even be constructed on the datastore it wrote itself (a call that REFUSES such a subnet is fine)
+				r.Violate("successful-block-makes-the-datastore-unloadable", fmt.Sprintf("BlockSubnet(%s) returns success and is enforced live, but the rule is persisted in a form loadRules cannot parse: NewBasicConnectionGater on that datastore fails with %v - every persisted rule is lost", odd.String(), err2),
+					map[string]any{"part": "rule-forms", "block": odd.String()})
 			}
 		}
 	}
